@@ -5,10 +5,10 @@ from kernel_main import main, run  # noqa
 def kind_a(report, tier, seed):
     from contracts import idexpr
 
-    idexpr.run(report, {"exhaust"})
+    report.guarded("exhaust contracts", idexpr.run, report, {"exhaust"})
     from contracts import lowering_shell
 
-    lowering_shell.terminal_expression(report, 3 if tier == "quick" else 4)
+    report.guarded("terminal expression", lowering_shell.terminal_expression, report, 3 if tier == "quick" else 4)
 
 
 def check(argv):
